@@ -202,7 +202,11 @@ def run(prop: str, tier: str, seed: int) -> int:
     if d["sequences"] == 0 or d["spec_accepts"] == 0:
         R.engine_errors.append("vacuous enumeration")
     R.level = "other"
+    from . import engine_diff
+
+    diff_summary = engine_diff.report(R, engine_diff.parse_diff(), "parser and tokenizer on concrete strings")
     R.coverage = {
+        "engine_differential": diff_summary,
         "explanation": f"PROOF-FINITE: for each of the {d['sequences']} token-type sequences of length <= {d['max_len']} the real _parse is executed symbolically with symbolic constants and variable names "
         "(its control flow depends on token types only), so each run covers every string with that token-type sequence; compared with the reference grammar written from the property. "
         "Bounded in the number of tokens, unbounded in the values.",
